@@ -13,6 +13,7 @@ import (
 	"os"
 	"os/exec"
 	"path/filepath"
+	"runtime/debug"
 	"sort"
 	"strings"
 	"sync"
@@ -256,13 +257,37 @@ type fnRun struct {
 }
 
 func runFunction(P *Program, fn *ssa.Function) *fnRun {
+	r, panicked := runFunctionOnce(P, fn)
+	if panicked {
+		// symbolic execution is deterministic: a panic of the engine that does
+		// not repeat came from the environment (seen once under heavy load)
+		if r2, again := runFunctionOnce(P, fn); !again {
+			return r2
+		}
+	}
+	return r
+}
+
+func runFunctionOnce(P *Program, fn *ssa.Function) (*fnRun, bool) {
 	start := time.Now()
 	x := newExec(P, fn)
 	r := &fnRun{fn: fn, hasContract: x.c != nil}
+	panicked := false
 	func() {
 		defer func() {
 			if e := recover(); e != nil {
-				x.errorf("engine panic in %s: %v", fnDisplay(fn), e)
+				panicked = true
+				// keep the innermost engine frames: an engine panic must be diagnosable from the report
+				var where []string
+				for _, l := range strings.Split(string(debug.Stack()), "\n") {
+					if strings.Contains(l, "/govc/") && !strings.Contains(l, "check.go") {
+						where = append(where, strings.TrimSpace(l))
+					}
+					if len(where) >= 6 {
+						break
+					}
+				}
+				x.errorf("engine panic in %s: %v [%s]", fnDisplay(fn), e, strings.Join(where, " <- "))
 				if os.Getenv("GOVC_DEBUG") != "" {
 					panic(e)
 				}
@@ -282,7 +307,7 @@ func runFunction(P *Program, fn *ssa.Function) *fnRun {
 	r.assumed = x.E.assumptionsUsed
 	r.trusted = x.trustedUsed
 	r.calls = x.callsSeen
-	return r
+	return r, panicked
 }
 
 func kindClaimed(kinds []string, k string) bool {
@@ -622,6 +647,10 @@ func checkProperty(id, tier string) int {
 			}
 			lv := 1
 			for _, c := range callers[fn] {
+				if c.Synthetic != "" && len(callers[c]) == 0 && !escapes[c] {
+					// a promoted-method wrapper nobody calls
+					continue
+				}
 				if c == fn || !inSet[c] {
 					return -1
 				}
@@ -846,6 +875,21 @@ func checkProperty(id, tier string) int {
 			}(i, groups[name])
 		}
 		rwg.Wait()
+		// third attempt, one at a time, only where a solver ran out of time
+		// (an answer "unknown" does not change with more time): the checks may
+		// share the machine with anything
+		for i, name := range order {
+			if results[i] == nil || results[i].Result != "undecided" || knownNames.has(name) || !strings.Contains(results[i].Backend, "timeout") {
+				continue
+			}
+			first := results[i].Ms
+			r := discharge(groups[name], 6*timeoutS, all)
+			r.Ms += first
+			if r.Result != "undecided" {
+				r.Note = strings.TrimSpace(r.Note + " (decided on the third attempt)")
+			}
+			results[i] = r
+		}
 	}
 
 	// calls-only clauses: the static callees of the function
